@@ -1,6 +1,6 @@
 (* Props/C10.v — property C10: append merges timing, scaling and properties by the documented rules only. *)
 From Coq Require Import ZArith List.
-From NV Require Import Common.Py Spec.TimingSpec Model.Timing Model.Waveform Proofs.WfmProofs Proofs.WfmProofs2.
+From NV Require Import Common.Py Spec.TimingSpec Model.Timing Model.Waveform Proofs.WfmProofs Proofs.WfmProofs2 Proofs.C10Complete.
 Open Scope Z_scope.
 
 (* a successful append: samples appended in order, dtypes / signal counts matched, NONE/REGULAR receivers
@@ -44,3 +44,16 @@ Theorem C10_array_timestamps : forall t,
   (t_mode t <> 2 -> append_timestamps t TsNone = Ok t /\ forall l, append_timestamps t (TsList l) = Raise ValueError).
 Proof. exact array_timestamps_rule. Qed.
 Print Assumptions C10_array_timestamps.
+
+(* the converse for NONE/REGULAR receivers and spectra: compatible sources (dtype, signal count), no
+   IRREGULAR source, and a buffer that can hold or grow to the total => append MUST succeed, and the
+   warnings are exactly one ScalingMismatchWarning per source whose scale mode differs followed by one
+   TimingMismatchWarning per source whose sample interval differs *)
+Theorem C10_append_must_succeed : forall o srcs,
+  Forall (src_compatible o) srcs ->
+  (has_timing (o_kind o) = true -> t_mode (o_timing o) <> 2 /\ Forall (fun s => t_mode (o_timing s) <> 2) srcs) ->
+  (o_resizable o = true \/ (o_start o + o_count o + fold_left (fun n s => (n + o_count s)%nat) srcs 0%nat <= cap o)%nat) ->
+  exists o', append_waveforms o srcs =
+    Ok (o', scale_warnings o srcs ++ (if has_timing (o_kind o) then timing_warnings (o_timing o) srcs else [])).
+Proof. exact append_waveforms_complete. Qed.
+Print Assumptions C10_append_must_succeed.
